@@ -1402,9 +1402,10 @@ Hwrite(int32 access_id, int32 length, const void *data)
     /* check for a "new" element and make it appendable if so.
        Does this mean every element is by default appendable? */
     if (access_rec->new_elem == TRUE) {
-        Hsetlength(access_id, length); /* make the initial chunk of data */
-        access_rec->appendable = TRUE; /* make it appendable */
-    }                                  /* end if */
+        if (Hsetlength(access_id, length) == FAIL) /* make the initial chunk of data */
+            HGOTO_ERROR(DFE_BADLEN, FAIL);         /* no room left in the file for it */
+        access_rec->appendable = TRUE;             /* make it appendable */
+    }                                              /* end if */
 
     /* get the offset and length of the element. This should have
        been set by Hstartwrite(). */
